@@ -17,6 +17,9 @@ def sh(cmd, **kw):
     return subprocess.run(cmd, capture_output=True, text=True, **kw)
 
 
+ALSO = []
+
+
 def one(sid):
     d = os.path.join(VERIF, 'seeded', sid)
     meta = json.load(open(os.path.join(d, 'meta.json')))
@@ -41,6 +44,11 @@ def one(sid):
             lines = [ln for ln in r.stdout.splitlines() if ln.startswith(('VIOLATION', 'INCONCLUSIVE'))]
             out['runs'][seed] = dict(exit=r.returncode,
                                      mechanisms=[ln.split('mechanism=')[-1][:120] if 'mechanism=' in ln else ln[:120] for ln in lines[:3]])
+        for other in ALSO:        # other properties' checks, seed 0 only (reported, not part of 'caught')
+            r = sh([os.path.join(VERIF, 'check'), other, '--tier', 'quick', '--no-evidence'],
+                   env=dict(env, VERIF_REPO=scratch, VERIF_SEED='0'))
+            lines = [ln for ln in r.stdout.splitlines() if ln.startswith(('VIOLATION', 'INCONCLUSIVE'))]
+            out.setdefault('other_checks', {})[other] = dict(exit=r.returncode, mechanisms=[ln.split('mechanism=')[-1][:120] for ln in lines[:2]])
     finally:
         shutil.rmtree(scratch, ignore_errors=True)
     out['caught'] = all(v['exit'] == 1 for v in out['runs'].values()) if out['runs'] else False
@@ -54,6 +62,8 @@ def main():
         jobs = int(args[args.index('-j') + 1])
     if '-k' in args:
         sub = args[args.index('-k') + 1]
+    if '--also' in args:
+        ALSO.extend(args[args.index('--also') + 1].split(','))
     sids = sorted(s for s in os.listdir(os.path.join(VERIF, 'seeded')) if os.path.exists(os.path.join(VERIF, 'seeded', s, 'meta.json')))
     if sub:
         sids = [s for s in sids if sub in s]
@@ -67,6 +77,8 @@ def main():
             status = 'CAUGHT' if out.get('caught') else ('PATCH-DOES-NOT-APPLY' if not out['applies'] else 'MISSED')
             if status != 'CAUGHT':
                 bad += 1
+            for o, v in (out.get('other_checks') or {}).items():
+                print('    also %s: exit %s %s' % (o, v['exit'], v['mechanisms'][:1]))
             print('%-38s %s %-8s demo %s/%s  %s' % (sid, prop, status, out.get('demo_exit_with_change'), out.get('demo_exit_without_change'),
                                                    ' | '.join(m for v in out['runs'].values() for m in v['mechanisms'][:1])[:150]))
     print('--- %d seeded changes, %d not caught' % (len(sids), bad))
